@@ -31,7 +31,7 @@ MONITORS = ("immut",)
 
 _B = {"bundle": None, "ctx": None}
 HIST_KINDS = ("tensor-copy", "mps-copy", "peps-copy", "probe-product_peps", "probe-generator", "probe-from_dict",
-              "env-copy", "mps-algos", "tensor-linalg", "peps-sample")
+              "env-copy", "mps-algos", "tensor-linalg", "peps-sample", "mps-readonly", "dpt-copy")
 
 
 def _report(key, what, witness=None):
@@ -51,7 +51,7 @@ def layout(tier):
         seg += [("suite", len(W.test_files())), ("prog", 4000), ("hist", 1500)]
         per = 200
     else:
-        seg += [("prog", 300), ("hist", 120)]
+        seg += [("prog", 300), ("hist", 240)]
         per = 25
     for name in W.foreign_modules():
         if tier != "thorough" and name not in W.TENSOR_LEVEL:
@@ -77,8 +77,10 @@ def plan(tier):
 
 def floors(tier):
     if tier == "thorough":
-        return {"snapshotted_calls": 500000, "exempt_inplace_calls": 5000, "copy_histories": 500, "suite_files_run": 80}
-    return {"snapshotted_calls": 20000, "exempt_inplace_calls": 100, "copy_histories": 40}
+        return {"snapshotted_calls": 500000, "exempt_inplace_calls": 5000, "copy_histories": 500, "suite_files_run": 80,
+                "dpt_source_with_swaps": 30, "mps_readonly_with_central_block": 30}
+    return {"snapshotted_calls": 20000, "exempt_inplace_calls": 100, "copy_histories": 40, "dpt_source_with_swaps": 5,
+            "mps_readonly_with_central_block": 5}
 
 
 # ------------------------------------------------------------------ copy-independence histories
@@ -459,9 +461,107 @@ def hist_peps_sample(ctx, rng, nprng):
     return ("peps-sample", kind, form, tuple(geo.dims))
 
 
+def hist_mps_readonly(ctx, rng, nprng):
+    """Every reading / serialising / deriving method of an MPS or MPO, called on a state that may carry a central block
+    (mid-sweep) and a non-unit factor: the immutability monitor snapshots self around each call."""
+    import yastn
+    import yastn.tn.mps as mps
+    ops, fam = _ops(rng)
+    N = rng.randint(2, 5)
+    mpo = rng.random() < 0.3
+    psi = _rand_mps(rng, ops, N, mpo=mpo)
+    if rng.random() < 0.5:
+        psi.canonize_(to="first" if rng.random() < 0.5 else "last")
+    if rng.random() < 0.4:
+        psi.factor = rng.choice((2.0, -0.5, 0.0))
+    central = rng.random() < 0.6
+    if central:
+        psi.orthogonalize_site_(rng.randrange(N), to=rng.choice(("first", "last")))
+        ctx.count("mps_readonly_with_central_block", int(psi.pC is not None))
+    s0 = IM.snapshot(psi)
+    calls = [("save_to_dict", lambda: psi.save_to_dict()), ("to_dict", lambda: psi.to_dict(level=rng.choice((0, 1, 2)))),
+             ("get_bond_dimensions", psi.get_bond_dimensions), ("get_bond_charges_dimensions", psi.get_bond_charges_dimensions),
+             ("get_virtual_legs", psi.get_virtual_legs), ("get_physical_legs", psi.get_physical_legs),
+             ("get_entropy", psi.get_entropy), ("get_Schmidt_values", psi.get_Schmidt_values),
+             ("norm", psi.norm), ("conj", psi.conj), ("reverse_sites", psi.reverse_sites),
+             ("shallow_copy", psi.shallow_copy), ("copy", psi.copy), ("clone", psi.clone),
+             ("mul", lambda: 2.0 * psi), ("neg", lambda: -psi), ("add", lambda: psi + psi),
+             ("measure_overlap", lambda: mps.measure_overlap(psi, psi)), ("vdot", lambda: mps.vdot(psi, psi)),
+             ("virtual_leg", lambda: psi.virtual_leg("first")), ("config", lambda: psi.config), ("len", lambda: len(psi)),
+             ("sweep", lambda: list(psi.sweep(to="last"))), ("to_tensor", lambda: psi.to_tensor() if N <= 4 else None)]
+    if mpo:
+        calls += [("T", lambda: psi.T), ("H", lambda: psi.H), ("matmul", lambda: psi @ psi), ("to_matrix", lambda: psi.to_matrix() if N <= 3 else None)]
+    else:
+        calls += [("measure_1site", lambda: mps.measure_1site(psi, ops.I(), psi)), ("rdm", lambda: mps.rdm(psi, 0))]
+    rng.shuffle(calls)
+    for name, f in calls[:rng.randint(6, 14)]:
+        try:
+            f()
+            ctx.count("mps_readonly_calls")
+        except Exception as e:      # noqa: BLE001
+            if type(e).__name__ not in ("YastnError", "AttributeError"):
+                raise
+            ctx.count("mps_readonly_rejected")
+        # the monitor judges the public call; this is the end-to-end restatement on the whole object
+        if not _same(ctx, f"operand-modified:Mps.{name}", f"{name} on an MPS/MPO{' with a central block' if central else ''} changed it", s0, psi):
+            break
+    ctx.count("mps_readonly_histories")
+    return ("mps-readonly", fam, N, mpo, central)
+
+
+def hist_dpt_copy(ctx, rng, nprng):
+    """DoublePepsTensor: objects derived from one that already carries charge swaps / an operator stay independent of it."""
+    from yastn.tn.fpeps import DoublePepsTensor
+    ops, fam, geo, vecs = _small_peps(rng)
+    import yastn.tn.fpeps as fpeps
+    psi = fpeps.product_peps(geo, vecs)
+    site = rng.choice(list(geo.sites()))
+    A = psi[site]
+    if A.ndim == 3:
+        A = A.unfuse_legs(axes=(0, 1))
+    T = DoublePepsTensor(bra=A, ket=A)
+    sym = G.sym_name(ops.config.sym)
+    zero = ops.config.sym.zero()
+    charges = [t for t in ops.space().t if t != zero] or [zero]
+    axes_all = ['b0', 'b1', 'b2', 'b3', 'b4', 'k0', 'k1', 'k2', 'k3', 'k4']
+    pre = rng.random() < 0.75
+    if pre:                       # the source already holds swaps when it is copied
+        for ax in rng.sample(axes_all, rng.randint(1, 3)):
+            T.add_charge_swaps_(rng.choice(charges), ax)
+        ctx.count("dpt_source_with_swaps", int(bool(T.swaps)))
+    if rng.random() < 0.3:
+        T.set_operator_(ops.I())
+    how = rng.choice(("copy", "clone", "conj", "flip_signature", "transpose", "shallow"))
+    if how == "transpose":
+        U = T.transpose(rng.choice(((0, 1, 2, 3), (1, 2, 3, 0), (2, 3, 0, 1), (3, 0, 1, 2))))   # cyclic ones are supported
+    elif how == "shallow":
+        import copy as _copy
+        U = T.copy()
+        how = "copy"
+    else:
+        U = getattr(T, how)()
+    s_T, s_U = IM.snapshot(T), IM.snapshot(U)
+    tgt, other, s_other, side = (T, U, s_U, "source") if rng.random() < 0.5 else (U, T, s_T, "derived")
+    edit = rng.choice(("add_charge_swaps_", "add_charge_swaps_", "del_charge_swaps_", "set_operator_", "del_operator_"))
+    if edit == "add_charge_swaps_":
+        tgt.add_charge_swaps_(rng.choice(charges), rng.sample(axes_all, rng.randint(1, 2)))
+    elif edit == "del_charge_swaps_":
+        tgt.del_charge_swaps_()
+    elif edit == "set_operator_":
+        tgt.set_operator_(ops.I())
+    else:
+        tgt.del_operator_()
+    _same(ctx, f"copy-not-independent:DoublePepsTensor.{how}:{edit}",
+          f"{edit} on the {side} changed the other side of DoublePepsTensor.{how}()", s_other, other)
+    ctx.count("copy_histories")
+    ctx.count("copy_histories:dpt")
+    return ("dpt-copy", fam, how, edit, side, pre)
+
+
 HIST = {"peps-sample": hist_peps_sample, "tensor-copy": hist_tensor_copy, "mps-copy": hist_mps_copy, "peps-copy": hist_peps_copy, "env-copy": hist_env_copy,
         "probe-product_peps": probe_product_peps, "probe-generator": probe_generator, "probe-from_dict": probe_from_dict,
-        "mps-algos": hist_mps_algos, "tensor-linalg": hist_tensor_linalg}
+        "mps-algos": hist_mps_algos, "tensor-linalg": hist_tensor_linalg,
+        "mps-readonly": hist_mps_readonly, "dpt-copy": hist_dpt_copy}
 
 
 def run_case(ctx, idx):
